@@ -1,12 +1,536 @@
-//! C24 — monitor not built yet (stub so that the registry is complete).
+//! C24 — call-sequence queries return exactly the direct internal calls that lie on some
+//! call-graph path from the source function to the target function.
+//!
+//! Monitor shape: hand-built random `Program`s (the generator keeps the list of call sites it
+//! planted = ground truth by construction), the real `get_program_callgraph` +
+//! `find_call_sequences_to_target` for every (source, target) pair, and an independent oracle:
+//! reflexive-transitive closure of the planted internal call relation by Warshall; a planted
+//! internal call u->v is expected iff source ->* u and v ->* target.
+//!
+//! Reading of the statement ("lie on some call-graph path from source to target"): a path is a
+//! walk source = f0 -> f1 -> .. -> fk = target (k >= 0) along direct internal calls; functions may
+//! repeat (recursion is a real call sequence). For source == target the empty walk contributes no
+//! call, so only calls on cycles through the source are expected — the closure formula gives
+//! exactly this.
+
 use crate::core::*;
+use crate::prng::{mix, Rng};
+use cwe_checker_lib::analysis::callgraph::{find_call_sequences_to_target, get_program_callgraph};
+use cwe_checker_lib::intermediate_representation::*;
+use serde_json::{json, Value};
+use std::collections::{BTreeMap, BTreeSet};
 
 pub fn info() -> CheckInfo {
     CheckInfo {
         id: "C24",
-        rule: "(monitor not built yet)",
-        assumptions: &[],
-        run: |_cfg| Report::new(),
-        replay: |_cfg, _case| Report::new(),
+        rule: "one evaluation = one (program, source, target) query of find_call_sequences_to_target on the graph of get_program_callgraph, compared (set equality of call TIDs) with the Warshall-closure oracle over the call sites planted by the generator; additionally one evaluation per program comparing nodes/edges of the call graph with the planted subs / internal call sites (with multiplicity). Programs: exhaustive over all digraphs with self loops on 1..=4 functions (one call site per edge) plus random programs with <= 8 subs, parallel call sites, cycles, self calls, extern calls, indirect calls, calls to non-existent TIDs, non-call jumps aimed at function TIDs. non-trivial = the expected set is non-empty; distinct = hash of (planted jump list, source, target)",
+        assumptions: &[
+            "a call-graph path is a walk along direct internal calls (functions may repeat); for source == target only calls on cycles through the source are expected",
+            "input domain: every key of Program::subs equals the tid of the Sub stored under it, jump TIDs are unique, source and target are functions of the program (the query panics by contract otherwise)",
+            "a direct call whose target TID is neither a function nor an extern symbol of the program is not an internal call",
+            "verdicts on the release profile",
+        ],
+        run,
+        replay,
     }
+}
+
+// ---------------------------------------------------------------------------
+// Case description (everything needed to rebuild the program)
+
+#[derive(Clone, Debug, PartialEq, Eq, serde::Serialize, serde::Deserialize)]
+pub enum JKind {
+    /// direct call to internal function `i`
+    Call(usize),
+    /// direct call to extern symbol `i`
+    Ext(usize),
+    /// direct call to a TID that is neither a sub nor an extern symbol
+    Missing,
+    /// indirect call
+    Ind,
+    /// `Jmp::Branch` whose target happens to be the TID of function `i` (not a call)
+    BranchToSub(usize),
+    /// `Jmp::CBranch` whose target happens to be the TID of function `i` (not a call)
+    CBranchToSub(usize),
+    /// `CallOther` with the return target being the TID of function `i` (not a call)
+    OtherRetSub(usize),
+    /// return
+    Ret,
+}
+
+#[derive(Clone, Debug, PartialEq, Eq, serde::Serialize, serde::Deserialize)]
+pub struct JSpec {
+    /// calling function
+    pub sub: usize,
+    /// block inside the calling function
+    pub blk: usize,
+    pub kind: JKind,
+    /// whether the call has a return target (irrelevant for the query)
+    pub ret: bool,
+}
+
+#[derive(Clone, Debug, PartialEq, Eq, serde::Serialize, serde::Deserialize)]
+pub struct Spec {
+    /// names of the functions (determines the order in `Program::subs`)
+    pub names: Vec<String>,
+    pub n_ext: usize,
+    pub jumps: Vec<JSpec>,
+}
+
+fn sub_tid(spec: &Spec, i: usize) -> Tid {
+    let mut t = Tid::new(format!("sub_{}", spec.names[i]));
+    t.address = format!("{:08x}", 0x1000 + 0x100 * i);
+    t
+}
+
+fn ext_tid(i: usize) -> Tid {
+    let mut t = Tid::new(format!("ext_{i}"));
+    t.address = format!("{:08x}", 0x9000 + 0x10 * i);
+    t
+}
+
+fn jmp_tid(idx: usize) -> Tid {
+    let mut t = Tid::new(format!("jmp_{idx}"));
+    t.address = format!("{:08x}", 0x20000 + 4 * idx);
+    t
+}
+
+fn var(name: &str) -> Expression {
+    Expression::Var(Variable { name: name.to_string(), size: ByteSize::new(8), is_temp: false })
+}
+
+/// Build the program described by `spec`.
+pub fn build_program(spec: &Spec) -> Term<Program> {
+    let n = spec.names.len();
+    let mut blocks: Vec<BTreeMap<usize, Vec<Term<Jmp>>>> = vec![BTreeMap::new(); n];
+    for (idx, j) in spec.jumps.iter().enumerate() {
+        let ret = if j.ret { Some(Tid::new(format!("blk_{}_{}", spec.names[j.sub], j.blk + 1))) } else { None };
+        let term = match &j.kind {
+            JKind::Call(t) => Jmp::Call { target: sub_tid(spec, *t), return_: ret },
+            JKind::Ext(e) => Jmp::Call { target: ext_tid(*e), return_: ret },
+            JKind::Missing => Jmp::Call { target: Tid::new(format!("sub_nowhere_{idx}")), return_: ret },
+            JKind::Ind => Jmp::CallInd { target: var("RAX"), return_: ret },
+            JKind::BranchToSub(t) => Jmp::Branch(sub_tid(spec, *t)),
+            JKind::CBranchToSub(t) => Jmp::CBranch { target: sub_tid(spec, *t), condition: var("ZF") },
+            JKind::OtherRetSub(t) => Jmp::CallOther { description: "syscall".into(), return_: Some(sub_tid(spec, *t)) },
+            JKind::Ret => Jmp::Return(var("RSP")),
+        };
+        blocks[j.sub].entry(j.blk).or_default().push(Term { tid: jmp_tid(idx), term });
+    }
+    let mut subs = BTreeMap::new();
+    for i in 0..n {
+        let mut blks = Vec::new();
+        // always one (possibly jump-free) entry block
+        if !blocks[i].contains_key(&0) {
+            blocks[i].insert(0, Vec::new());
+        }
+        for (b, jmps) in std::mem::take(&mut blocks[i]) {
+            blks.push(Term {
+                tid: Tid::new(format!("blk_{}_{}", spec.names[i], b)),
+                term: Blk { defs: Vec::new(), jmps, indirect_jmp_targets: Vec::new() },
+            });
+        }
+        let tid = sub_tid(spec, i);
+        subs.insert(
+            tid.clone(),
+            Term { tid, term: Sub { name: spec.names[i].clone(), blocks: blks, calling_convention: None } },
+        );
+    }
+    let mut extern_symbols = BTreeMap::new();
+    for e in 0..spec.n_ext {
+        let tid = ext_tid(e);
+        extern_symbols.insert(
+            tid.clone(),
+            ExternSymbol {
+                tid,
+                addresses: vec![format!("{:08x}", 0x9000 + 0x10 * e)],
+                name: format!("ext_{e}"),
+                calling_convention: None,
+                parameters: Vec::new(),
+                return_values: Vec::new(),
+                no_return: false,
+                has_var_args: false,
+            },
+        );
+    }
+    Term {
+        tid: Tid::new("program"),
+        term: Program { subs, extern_symbols, entry_points: BTreeSet::new(), address_base_offset: 0 },
+    }
+}
+
+/// The planted internal call sites: (caller, callee, index of the jump).
+fn planted_edges(spec: &Spec) -> Vec<(usize, usize, usize)> {
+    spec.jumps
+        .iter()
+        .enumerate()
+        .filter_map(|(idx, j)| match j.kind {
+            JKind::Call(t) => Some((j.sub, t, idx)),
+            _ => None,
+        })
+        .collect()
+}
+
+/// Reflexive-transitive closure (Warshall).
+fn closure(n: usize, edges: &[(usize, usize, usize)]) -> Vec<Vec<bool>> {
+    let mut r = vec![vec![false; n]; n];
+    for (i, row) in r.iter_mut().enumerate() {
+        row[i] = true;
+    }
+    for (u, v, _) in edges {
+        r[*u][*v] = true;
+    }
+    for k in 0..n {
+        for i in 0..n {
+            if r[i][k] {
+                for j in 0..n {
+                    if r[k][j] {
+                        r[i][j] = true;
+                    }
+                }
+            }
+        }
+    }
+    r
+}
+
+fn spec_hash(spec: &Spec) -> u64 {
+    let mut h = 0x24u64;
+    for (i, name) in spec.names.iter().enumerate() {
+        h = mix(h, crate::prng::hash_str(name) ^ i as u64);
+    }
+    for j in &spec.jumps {
+        let k = match j.kind {
+            JKind::Call(t) => 16 + t as u64,
+            JKind::Ext(e) => 32 + e as u64,
+            JKind::Missing => 1,
+            JKind::Ind => 2,
+            JKind::BranchToSub(t) => 48 + t as u64,
+            JKind::CBranchToSub(t) => 64 + t as u64,
+            JKind::OtherRetSub(t) => 80 + t as u64,
+            JKind::Ret => 3,
+        };
+        h = mix(h, (j.sub as u64) << 16 | (j.blk as u64) << 8 | k);
+    }
+    h
+}
+
+/// Check one program: call-graph shape and (all | the given) source/target pairs.
+/// `track`: record coverage information.
+pub fn check_spec(spec: &Spec, only_pair: Option<(usize, usize)>, rep: &mut Report, track: bool) {
+    let n = spec.names.len();
+    let program = build_program(spec);
+    let edges = planted_edges(spec);
+    let size = (n + spec.jumps.len()) as u64;
+    let case = |s: usize, t: usize| json!({"spec": spec, "source": s, "target": t});
+    // --- call graph shape
+    rep.eval();
+    let graph = match guard(|| get_program_callgraph(&program)) {
+        Ok(g) => g,
+        Err(p) => {
+            rep.violation(
+                format!("callgraph:panic:{}", panic_site(&p)),
+                None,
+                format!("get_program_callgraph panicked on a well-formed program: {p}"),
+                case(0, 0),
+                size,
+            );
+            return;
+        }
+    };
+    {
+        let nodes: Vec<Tid> = graph.node_indices().map(|i| graph[i].clone()).collect();
+        let mut sorted = nodes.clone();
+        sorted.sort();
+        sorted.dedup();
+        let expected_nodes: Vec<Tid> = {
+            let mut v: Vec<Tid> = (0..n).map(|i| sub_tid(spec, i)).collect();
+            v.sort();
+            v
+        };
+        if sorted != expected_nodes || nodes.len() != n {
+            rep.violation(
+                "callgraph:nodes",
+                None,
+                format!("call graph nodes {:?} differ from the functions of the program {:?}", nodes.iter().map(|t| t.to_string()).collect::<Vec<_>>(), expected_nodes.iter().map(|t| t.to_string()).collect::<Vec<_>>()),
+                case(0, 0),
+                size,
+            );
+        }
+        use petgraph::visit::EdgeRef;
+        let mut got_edges: Vec<(Tid, Tid, Tid)> =
+            graph.edge_references().map(|e| (graph[e.source()].clone(), graph[e.target()].clone(), e.weight().tid.clone())).collect();
+        got_edges.sort();
+        let mut exp_edges: Vec<(Tid, Tid, Tid)> = edges.iter().map(|(u, v, idx)| (sub_tid(spec, *u), sub_tid(spec, *v), jmp_tid(*idx))).collect();
+        exp_edges.sort();
+        if got_edges != exp_edges {
+            let show = |v: &Vec<(Tid, Tid, Tid)>| v.iter().map(|(a, b, c)| format!("{a}->{b}@{c}")).collect::<Vec<_>>().join(", ");
+            rep.violation(
+                "callgraph:edges",
+                None,
+                format!("call graph edges [{}] differ from the direct internal calls of the program [{}]", show(&got_edges), show(&exp_edges)),
+                case(0, 0),
+                size,
+            );
+        }
+    }
+    // --- queries
+    let reach = closure(n, &edges);
+    let pairs: Vec<(usize, usize)> = match only_pair {
+        Some(p) => vec![p],
+        None => (0..n).flat_map(|s| (0..n).map(move |t| (s, t))).collect(),
+    };
+    let h = if track { spec_hash(spec) } else { 0 };
+    for (s, t) in pairs {
+        if s >= n || t >= n {
+            continue;
+        }
+        rep.eval();
+        let expected: BTreeSet<Tid> = edges.iter().filter(|(u, v, _)| reach[s][*u] && reach[*v][t]).map(|(_, _, idx)| jmp_tid(*idx)).collect();
+        let (st, tt) = (sub_tid(spec, s), sub_tid(spec, t));
+        match guard(|| find_call_sequences_to_target(&graph, &st, &tt)) {
+            Err(p) => rep.violation(
+                format!("query:panic:{}", panic_site(&p)),
+                None,
+                format!("find_call_sequences_to_target({st}, {tt}) panicked: {p}"),
+                case(s, t),
+                size,
+            ),
+            Ok(got) => {
+                if got != expected {
+                    let missing: Vec<String> = expected.difference(&got).map(|t| t.to_string()).collect();
+                    let surplus: Vec<String> = got.difference(&expected).map(|t| t.to_string()).collect();
+                    let what = match (missing.is_empty(), surplus.is_empty()) {
+                        (false, true) => "missing-call",
+                        (true, false) => "surplus-call",
+                        _ => "missing-and-surplus",
+                    };
+                    let class = if s == t { "source=target" } else { "source!=target" };
+                    rep.violation(
+                        format!("query:{what}:{class}"),
+                        None,
+                        format!(
+                            "find_call_sequences_to_target({st} -> {tt}): expected calls on source->target walks {:?}, observed {:?}; missing {missing:?}, surplus {surplus:?}",
+                            expected.iter().map(|t| t.to_string()).collect::<Vec<_>>(),
+                            got.iter().map(|t| t.to_string()).collect::<Vec<_>>()
+                        ),
+                        case(s, t),
+                        size,
+                    );
+                }
+                if track {
+                    if !expected.is_empty() {
+                        rep.nontrivial(mix(h, (s as u64) << 8 | t as u64));
+                    }
+                    let class = if expected.is_empty() {
+                        if reach[s][t] {
+                            "expected:empty(source=target,no cycle)"
+                        } else {
+                            "expected:empty(unreachable)"
+                        }
+                    } else if expected.len() == edges.len() {
+                        "expected:all-internal-calls"
+                    } else {
+                        "expected:proper-nonempty-subset"
+                    };
+                    rep.obs(class);
+                    if s == t && !expected.is_empty() {
+                        rep.obs("source=target on a cycle");
+                    }
+                    if rep.wants_sample() && !expected.is_empty() && expected.len() < edges.len() && n >= 4 && s != t && spec.jumps.iter().any(|j| !matches!(j.kind, JKind::Call(_))) {
+                        rep.sample(json!({
+                            "planted_internal_calls": edges.iter().map(|(u,v,i)| format!("{}->{} @jmp_{i}", spec.names[*u], spec.names[*v])).collect::<Vec<_>>(),
+                            "other_jumps": spec.jumps.iter().filter(|j| !matches!(j.kind, JKind::Call(_))).map(|j| format!("{}:{:?}", spec.names[j.sub], j.kind)).collect::<Vec<_>>(),
+                            "source": spec.names[s], "target": spec.names[t],
+                            "expected": expected.iter().map(|t| t.to_string()).collect::<Vec<_>>(),
+                            "observed": got.iter().map(|t| t.to_string()).collect::<Vec<_>>(),
+                        }));
+                    }
+                }
+            }
+        }
+    }
+    if track {
+        rep.obs(&format!("subs:{n}"));
+        let mut pairs_seen = BTreeSet::new();
+        let mut parallel = false;
+        let mut selfcall = false;
+        for (u, v, _) in &edges {
+            if !pairs_seen.insert((*u, *v)) {
+                parallel = true;
+            }
+            if u == v {
+                selfcall = true;
+            }
+        }
+        let cyclic = (0..n).any(|i| (0..n).any(|j| i != j && reach[i][j] && reach[j][i]));
+        if parallel {
+            rep.obs("program:parallel-call-sites");
+        }
+        if selfcall {
+            rep.obs("program:self-call");
+        }
+        if cyclic {
+            rep.obs("program:cycle(len>=2)");
+        }
+        for j in &spec.jumps {
+            let k = match j.kind {
+                JKind::Call(_) => "jump:internal-call",
+                JKind::Ext(_) => "jump:extern-call",
+                JKind::Missing => "jump:call-to-missing-tid",
+                JKind::Ind => "jump:indirect-call",
+                JKind::BranchToSub(_) => "jump:branch-to-sub-tid",
+                JKind::CBranchToSub(_) => "jump:cbranch-to-sub-tid",
+                JKind::OtherRetSub(_) => "jump:callother-ret-sub-tid",
+                JKind::Ret => "jump:return",
+            };
+            rep.obs(k);
+        }
+    }
+}
+
+fn random_names(rng: &mut Rng, n: usize) -> Vec<String> {
+    // names decide the BTreeMap order of the subs and thereby the node indices
+    let mut pool: Vec<String> = ["a", "b", "c", "d", "e", "f", "g", "h", "main", "init", "z9", "A0"].iter().map(|s| s.to_string()).collect();
+    rng.shuffle(&mut pool);
+    pool.truncate(n);
+    pool
+}
+
+fn random_spec(rng: &mut Rng) -> Spec {
+    let n = rng.range_usize(1, 8);
+    let names = random_names(rng, n);
+    let n_ext = rng.usize_below(4);
+    // shape class
+    let density = *rng.pick(&[1usize, 1, 2, 2, 3, 5]);
+    let n_jumps = rng.range_usize(0, (n * density).min(28));
+    let mut jumps = Vec::new();
+    // optional backbone: a chain or a ring so that long paths exist
+    let backbone = rng.below(4);
+    if n >= 2 && backbone <= 1 {
+        let mut order: Vec<usize> = (0..n).collect();
+        rng.shuffle(&mut order);
+        let len = rng.range_usize(2, n);
+        for w in order[..len].windows(2) {
+            jumps.push(JSpec { sub: w[0], blk: rng.usize_below(3), kind: JKind::Call(w[1]), ret: rng.bool() });
+        }
+        if backbone == 1 {
+            jumps.push(JSpec { sub: order[len - 1], blk: rng.usize_below(3), kind: JKind::Call(order[0]), ret: rng.bool() });
+        }
+    }
+    for _ in 0..n_jumps {
+        let sub = rng.usize_below(n);
+        let blk = rng.usize_below(3);
+        let kind = match rng.below(20) {
+            0..=10 => JKind::Call(rng.usize_below(n)),
+            11 => JKind::Call(sub), // self call
+            12 => {
+                // parallel to an existing call if there is one
+                let existing: Vec<(usize, usize)> = jumps.iter().filter_map(|j: &JSpec| if let JKind::Call(t) = j.kind { Some((j.sub, t)) } else { None }).collect();
+                if existing.is_empty() {
+                    JKind::Call(rng.usize_below(n))
+                } else {
+                    let (u, v) = *rng.pick(&existing);
+                    jumps.push(JSpec { sub: u, blk: rng.usize_below(3), kind: JKind::Call(v), ret: rng.bool() });
+                    continue;
+                }
+            }
+            13 | 14 if n_ext > 0 => JKind::Ext(rng.usize_below(n_ext)),
+            13 | 14 => JKind::Missing,
+            15 => JKind::Missing,
+            16 => JKind::Ind,
+            17 => JKind::BranchToSub(rng.usize_below(n)),
+            18 => {
+                if rng.bool() {
+                    JKind::CBranchToSub(rng.usize_below(n))
+                } else {
+                    JKind::OtherRetSub(rng.usize_below(n))
+                }
+            }
+            _ => JKind::Ret,
+        };
+        jumps.push(JSpec { sub, blk, kind, ret: rng.bool() });
+    }
+    rng.shuffle(&mut jumps);
+    Spec { names, n_ext, jumps }
+}
+
+/// Exhaustive part: all digraphs (with self loops) on `n` functions, adjacency bits `lo..hi`.
+fn exhaustive_chunk(n: usize, lo: u64, hi: u64, rep: &mut Report) {
+    let names: Vec<String> = (0..n).map(|i| format!("f{i}")).collect();
+    for bits in lo..hi {
+        let mut jumps = Vec::new();
+        for u in 0..n {
+            for v in 0..n {
+                if bits >> (u * n + v) & 1 == 1 {
+                    jumps.push(JSpec { sub: u, blk: v % 2, kind: JKind::Call(v), ret: true });
+                }
+            }
+        }
+        let spec = Spec { names: names.clone(), n_ext: 0, jumps };
+        check_spec(&spec, None, rep, bits % 64 == 0);
+        // count every query with a non-empty answer as a distinct case, cheaply
+        if bits % 64 != 0 {
+            let edges = planted_edges(&spec);
+            let reach = closure(n, &edges);
+            for s in 0..n {
+                for t in 0..n {
+                    if edges.iter().any(|(u, v, _)| reach[s][*u] && reach[*v][t]) {
+                        rep.nontrivial(mix(0xE0 + n as u64, bits << 8 | (s as u64) << 4 | t as u64));
+                    }
+                }
+            }
+        }
+    }
+}
+
+fn run(cfg: &Cfg) -> Report {
+    // shards 0..EXH: exhaustive chunks; rest: random programs
+    let mut exh: Vec<(usize, u64, u64)> = vec![(1, 0, 2), (2, 0, 16), (3, 0, 512)];
+    let chunks4 = 32u64;
+    for c in 0..chunks4 {
+        exh.push((4, c * (65536 / chunks4), (c + 1) * (65536 / chunks4)));
+    }
+    let random_shards = 96usize;
+    let per_shard = cfg.tier.pick(1_500u64, 40_000u64);
+    let mut rep = par_shards(cfg, "c24", exh.len() + random_shards, |idx, rng, rep| {
+        if idx < exh.len() {
+            let (n, lo, hi) = exh[idx];
+            exhaustive_chunk(n, lo, hi, rep);
+        } else {
+            for _ in 0..per_shard {
+                let spec = random_spec(rng);
+                check_spec(&spec, None, rep, true);
+            }
+        }
+    });
+    rep.exhaustive_parts.push("all digraphs with self loops on 1..=4 functions (one call site per edge), all (source,target) pairs".into());
+    rep
+}
+
+fn replay(_cfg: &Cfg, case: &Value) -> Report {
+    let mut rep = Report::new();
+    match serde_json::from_value::<Spec>(case["spec"].clone()) {
+        Ok(spec) => {
+            let n = spec.names.len();
+            let ok = spec.jumps.iter().all(|j| {
+                j.sub < n
+                    && match j.kind {
+                        JKind::Call(t) | JKind::BranchToSub(t) | JKind::CBranchToSub(t) | JKind::OtherRetSub(t) => t < n,
+                        _ => true,
+                    }
+            });
+            if !ok || n == 0 {
+                rep.note("replay case refers to functions outside the program");
+                return rep;
+            }
+            let pair = match (case["source"].as_u64(), case["target"].as_u64()) {
+                (Some(s), Some(t)) => Some((s as usize, t as usize)),
+                _ => None,
+            };
+            check_spec(&spec, pair, &mut rep, true);
+        }
+        Err(e) => rep.note(format!("cannot parse replay case: {e}")),
+    }
+    rep
 }
